@@ -162,9 +162,39 @@ static bool apply(World &w, const std::string &tok)
     }
     return true;
   }
+  if (k == "kc") {   // IntrusivePtr<const Base> c = std::move(h); ... end of scope
+    if (!w.live(h)) return false;
+    if (hB) { IntrusivePtr<const Base> c = std::move(w.hb[h].h()); (void)c; }
+    else { IntrusivePtr<const Base> c = std::move(w.hd[h - w.NB].h()); (void)c; }
+    return true;
+  }
+  if (k == "vt") {   // IntrusivePtr<Base> x = IntrusivePtr<Derived>(p): conversion from a temporary
+    int o = onum(2);
+    if (!hB) usage_abort(tok + " (needs a Base handle)");
+    if (w.live(h)) return false;
+    if (o < 0 || o >= (int)w.ob.size() || !w.alive(o)) return false;
+    if (!w.od[o]) usage_abort(tok + " (needs a Derived object)");
+    new (w.hb[h].mem) IntrusivePtr<Base>(IntrusivePtr<Derived>(w.od[o]));
+    w.hb[h].live = true;
+    return true;
+  }
   int g = hnum(2);
   if (!(w.isB(g) || w.isD(g))) return false;
   bool gB = w.isB(g);
+  if (k == "vm") {   // IntrusivePtr<Base> x(std::move(derivedHandle))
+    if (!hB || gB) usage_abort(tok + " (needs Base <- Derived)");
+    if (w.live(h) || !w.live(g)) return false;
+    new (w.hb[h].mem) IntrusivePtr<Base>(std::move(w.hd[g - w.NB].h()));
+    w.hb[h].live = true;
+    return true;
+  }
+  if (k == "va" || k == "vr") {   // base = derived;  base = std::move(derived);
+    if (!hB || gB) usage_abort(tok + " (needs Base <- Derived)");
+    if (!w.live(h) || !w.live(g)) return false;
+    if (k == "va") w.hb[h].h() = w.hd[g - w.NB].h();
+    else w.hb[h].h() = std::move(w.hd[g - w.NB].h());
+    return true;
+  }
   if (k == "cc" || k == "mc" || k == "vc") {
     if (w.live(h) || !w.live(g)) return false;
     if (k == "vc") {
@@ -322,7 +352,9 @@ static int run_threads(int T, long OPS, unsigned long long seed, int ROUNDS)
           case 4: mine[i] = (Base *)nullptr; break;                                // drop
           case 5: mine[i] = shared[j].ptr; break;                                  // raw assignment
           case 6: { IntrusivePtr<Base> tmp(shared[j]); IntrusivePtr<Base> t2(std::move(tmp)); mine[i] = t2; } break;
-          case 7: { IntrusivePtr<Base> tmp(sharedD[j % 2]); mine[i] = tmp; } break;  // derived-to-base conversion
+          case 7: { IntrusivePtr<Base> tmp(sharedD[j % 2]); mine[i] = tmp;                    // derived-to-base conversion
+                    IntrusivePtr<Derived> d(sharedD[j % 2]); mine[k] = std::move(d);            // ... from an rvalue
+                    IntrusivePtr<const Base> c = IntrusivePtr<Derived>(sharedD[j % 2].ptr); (void)c; } break;
           case 8: { Base *p = shared[j].ptr; p->refInc(); if (p->useCount() < 2) fail("count < 2 while holding an explicit reference"); p->refDec(); } break;
           default: { IntrusivePtr<Base> tmp(mine[k].ptr); mine[i] = tmp; } break;  // raw constructor from an owned handle
           }
